@@ -1,8 +1,14 @@
 // hgunit: direct drivers for header-level state machines of the tree.
 //   hgunit sched <in> <out>     NodeScheduler over a bare NodeSchedulerState (graph == nullptr)
 #include <hgraph/runtime/node_scheduler.h>
+#include <hgraph/types/operator_dispatch.h>
+#include <hgraph/types/type_pattern.h>
+#include <hgraph/types/metadata/type_registry.h>
 
+#include <algorithm>
+#include <cctype>
 #include <cstdio>
+#include <cstring>
 #include <fstream>
 #include <sstream>
 #include <string>
@@ -73,8 +79,198 @@ static int run_sched(const char *in_path, const char *out_path)
     return 0;
 }
 
+// ---------------------------------------------------------------------------------------------
+// dispatch: data-driven overload families on a reset OperatorRegistry (C19)
+//   input line:  <cand>;<cand>;... | <arg schema>,<arg schema>
+//   cand:        <label>=<in pattern>,<in pattern>-><out pattern>
+//   patterns:    TS(int) TS($T) TS($T:int/float) #S TSL(<p>,3) TSL(<p>,%N) TSD(int,<p>) TSD($K,<p>) TSS($T) REF(<p>) SIGNAL
+// ---------------------------------------------------------------------------------------------
+struct PParser
+{
+    const std::string &s;
+    std::size_t        i{0};
+    explicit PParser(const std::string &text) : s(text) {}
+    bool eat(const char *lit)
+    {
+        std::size_t n = std::strlen(lit);
+        if (s.compare(i, n, lit) == 0) { i += n; return true; }
+        return false;
+    }
+    std::string ident()
+    {
+        std::size_t b = i;
+        while (i < s.size() && (std::isalnum((unsigned char)s[i]) || s[i] == '_')) ++i;
+        return s.substr(b, i - b);
+    }
+    ScalarPattern scalar()
+    {
+        auto &reg = TypeRegistry::instance();
+        if (eat("$"))
+        {
+            std::string name = ident();
+            std::vector<const ValueTypeMetaData *> cons;
+            if (eat(":"))
+            {
+                do { cons.push_back(reg.value_type(ident())); } while (eat("/"));
+            }
+            return ScalarPattern::var(name, cons);
+        }
+        return ScalarPattern::concrete(reg.value_type(ident()));
+    }
+    TypePattern ts()
+    {
+        if (eat("#")) return TypePattern::var(ident());
+        if (eat("SIGNAL")) return TypePattern::signal();
+        if (eat("TSL("))
+        {
+            TypePattern e = ts();
+            eat(",");
+            TypePattern r;
+            if (eat("%")) r = TypePattern::tsl_var(e, ident());
+            else r = TypePattern::tsl(e, (std::size_t)std::atoll(ident().c_str()));
+            eat(")");
+            return r;
+        }
+        if (eat("TSD("))
+        {
+            ScalarPattern k = scalar();
+            eat(",");
+            TypePattern v = ts();
+            eat(")");
+            return TypePattern::tsd(k, v);
+        }
+        if (eat("TSS(")) { ScalarPattern e = scalar(); eat(")"); return TypePattern::tss(e); }
+        if (eat("REF(")) { TypePattern t = ts(); eat(")"); return TypePattern::ref(t); }
+        if (eat("TS(")) { ScalarPattern v = scalar(); eat(")"); return TypePattern::ts(v); }
+        throw std::runtime_error("bad pattern at " + s.substr(i));
+    }
+    const TSValueTypeMetaData *concrete()
+    {
+        auto &reg = TypeRegistry::instance();
+        if (eat("SIGNAL")) return reg.signal();
+        if (eat("TSL("))
+        {
+            const auto *e = concrete();
+            eat(",");
+            std::size_t n = (std::size_t)std::atoll(ident().c_str());
+            eat(")");
+            return reg.tsl(e, n);
+        }
+        if (eat("TSD("))
+        {
+            const auto *k = reg.value_type(ident());
+            eat(",");
+            const auto *v = concrete();
+            eat(")");
+            return reg.tsd(k, v);
+        }
+        if (eat("TSS(")) { const auto *e = reg.value_type(ident()); eat(")"); return reg.tss(e); }
+        if (eat("REF(")) { const auto *t = concrete(); eat(")"); return reg.ref(t); }
+        if (eat("TS(")) { const auto *v = reg.value_type(ident()); eat(")"); return reg.ts(v); }
+        throw std::runtime_error("bad schema at " + s.substr(i));
+    }
+};
+
+static std::vector<std::string> split_top(const std::string &s, char sep)
+{
+    std::vector<std::string> out;
+    std::string cur;
+    int depth = 0;
+    for (char c : s)
+    {
+        if (c == '(') ++depth;
+        if (c == ')') --depth;
+        if (c == sep && depth == 0) { out.push_back(cur); cur.clear(); }
+        else cur += c;
+    }
+    if (!cur.empty() || !out.empty()) out.push_back(cur);
+    return out;
+}
+
+static std::string clean(std::string v)
+{
+    for (char &c : v) { if (c == ' ' || c == '\n' || c == '\t') c = '_'; }
+    return v;
+}
+
+static int run_dispatch(const char *in_path, const char *out_path)
+{
+    std::ifstream in(in_path);
+    FILE *out = std::fopen(out_path, "w");
+    if (!in || !out) return 64;
+    auto &reg = TypeRegistry::instance();
+    (void)reg.register_scalar<Int>("int");
+    (void)reg.register_scalar<Str>("str");
+    (void)reg.register_scalar<Float>("float");
+    (void)reg.register_scalar<Bool>("bool");
+    std::string line;
+    long n = 0;
+    while (std::getline(in, line))
+    {
+        ++n;
+        std::string buf = "R " + std::to_string(n) + " ";
+        try
+        {
+            const auto bar = line.find('|');
+            std::string cands = line.substr(0, bar), args_s = line.substr(bar + 1);
+            while (!cands.empty() && cands.back() == ' ') cands.pop_back();
+            while (!args_s.empty() && args_s.front() == ' ') args_s.erase(0, 1);
+            OperatorRegistry::instance().reset();
+            for (const auto &c : split_top(cands, ';'))
+            {
+                if (c.empty()) continue;
+                const auto eq = c.find('=');
+                const auto arrow = c.find("->");
+                OperatorImpl impl;
+                impl.name  = "vop";
+                impl.label = c.substr(0, eq);
+                for (const auto &p : split_top(c.substr(eq + 1, arrow - eq - 1), ','))
+                {
+                    PParser pp(p);
+                    impl.params.push_back(ParamPattern{.kind = ParamPattern::Kind::Input, .name = "p" + std::to_string(impl.params.size()),
+                                                       .ts = pp.ts()});
+                }
+                std::string outp = c.substr(arrow + 2);
+                PParser po(outp);
+                impl.has_output = true;
+                impl.output     = po.ts();
+                impl.rank       = operator_dispatch_detail::operator_rank(impl.params);
+                impl.wire = [](Wiring &, const ResolutionMap &, std::span<const WiringArg>,
+                               std::span<const std::pair<std::string, WiringPortRef>>) -> OperatorWireResult { return {}; };
+                OperatorRegistry::instance().register_overload(std::move(impl));
+            }
+            std::vector<WiringArg> args;
+            for (const auto &a : split_top(args_s, ','))
+            {
+                if (a.empty()) continue;
+                PParser pa(a);
+                WiringArg arg;
+                arg.kind        = WiringArg::Kind::TimeSeries;
+                arg.port.schema = pa.concrete();
+                args.push_back(std::move(arg));
+            }
+            ResolvedOperatorCall r = OperatorRegistry::instance().resolve("vop", std::span<const WiringArg>{args}, true);
+            const TSValueTypeMetaData *o = ts_pattern_resolve(r.impl->output, r.map);
+            buf += "ok " + r.impl->label + " rank=" + std::to_string(r.impl->rank) + " out=" + clean(o ? std::string(o->name()) : "<null>") + " map=";
+            std::vector<std::string> binds;
+            for (const auto &[k, v] : r.map.ts_vars) binds.push_back("#" + k + "=" + clean(v ? std::string(v->name()) : "<null>"));
+            for (const auto &[k, v] : r.map.scalar_vars) binds.push_back("$" + k + "=" + clean(v ? std::string(v->name()) : "<null>"));
+            for (const auto &[k, v] : r.map.size_vars) binds.push_back("%" + k + "=" + std::to_string(v));
+            std::sort(binds.begin(), binds.end());
+            for (const auto &b : binds) buf += b + ";";
+        }
+        catch (const OperatorResolutionError &e) { buf += std::string("err resolution ") + clean(e.what()); }
+        catch (const std::exception &e) { buf += std::string("err other ") + clean(e.what()); }
+        buf += "\n";
+        std::fwrite(buf.data(), 1, buf.size(), out);
+    }
+    std::fclose(out);
+    return 0;
+}
+
 int main(int argc, char **argv)
 {
+    if (argc >= 4 && std::string(argv[1]) == "dispatch") return run_dispatch(argv[2], argv[3]);
     if (argc >= 4 && std::string(argv[1]) == "sched") return run_sched(argv[2], argv[3]);
     std::fprintf(stderr, "usage: hgunit sched <in> <out>\n");
     return 64;
